@@ -391,6 +391,14 @@ class Gen:
                 return self.pattern(allow_re)
             return ("re", R), f, c, n
         a = self.pattern(False); b = self.pattern(True)
+        if getattr(self.p, "closed_blocks", False):
+            # (known finding C01, lost finish actions: actions behind a concatenation whose last part can match nothing are lost)
+            for _ in range(8):
+                if not pat_tail_nullable(b[0]):
+                    break
+                b = self.pattern(True)
+            else:
+                b = self.pattern(False)
         return ("concat", [a[0], b[0]]), a[1], b[2], False
 
     # ---- expressions ----
